@@ -133,6 +133,8 @@ pub enum Style {
     Mixed,
     /// include edges plus an execution marker command after the last dependency line
     Marker,
+    /// include edges, and the last dependency directive is the very last line of the file
+    NoTail,
 }
 
 #[derive(Clone, Copy, PartialEq, Eq, Debug)]
@@ -162,7 +164,7 @@ impl Proj {
         for (k, j) in self.g.deps(i).into_iter().enumerate() {
             let y = NAMES[j];
             let after = match self.style {
-                Style::Include | Style::Marker => false,
+                Style::Include | Style::Marker | Style::NoTail => false,
                 Style::After => true,
                 Style::Mixed => k % 2 == 1,
             };
@@ -174,6 +176,9 @@ impl Proj {
         }
         if self.style == Style::Marker {
             s.push_str(&format!("-TXTPP#run echo x >> {}/{x}\n", marker_dir.display()));
+        }
+        if self.style == Style::NoTail && !self.g.deps(i).is_empty() {
+            return s;
         }
         s.push_str(&format!("{x}-tail\n"));
         s
@@ -187,6 +192,11 @@ impl Proj {
         let mut s = format!("{x}-head\n");
         for j in self.g.deps(i) {
             s.push_str(&self.oracle(j)?);
+        }
+        if self.style == Style::NoTail && !self.g.deps(i).is_empty() {
+            // the file ends with a directive whose output ends with a newline: the option adds one more
+            s.push('\n');
+            return Some(s);
         }
         s.push_str(&format!("{x}-tail\n"));
         Some(s)
@@ -241,6 +251,7 @@ impl Case {
             "After" => Style::After,
             "Mixed" => Style::Mixed,
             "Marker" => Style::Marker,
+            "NoTail" => Style::NoTail,
             _ => Style::Include,
         };
         let pre = match v["pre"].as_str().unwrap_or("") {
@@ -655,9 +666,12 @@ pub fn plan(prop: &str, thorough: bool) -> Vec<Case> {
     match prop {
         "C02" => {
             for g in graphs.iter().filter(|g| g.acyclic()) {
-                let styles: &[Style] = if thorough { &[Style::Include, Style::After, Style::Mixed] } else { &[Style::Include, Style::After] };
+                let styles: &[Style] = if thorough { &[Style::Include, Style::After, Style::Mixed, Style::NoTail] } else { &[Style::Include, Style::After, Style::NoTail] };
                 for &style in styles {
                     if style == Style::Mixed && g.edges().len() < 2 {
+                        continue;
+                    }
+                    if style == Style::NoTail && g.edges().is_empty() {
                         continue;
                     }
                     let proj = Proj { g: *g, style };
@@ -676,6 +690,11 @@ pub fn plan(prop: &str, thorough: bool) -> Vec<Case> {
                 let (pres, modes): (&[Pre], Vec<Mode>) =
                     if thorough { (&[Pre::Stale, Pre::Absent], vec![Mode::Build]) } else { (&[Pre::Stale], vec![Mode::Build]) };
                 cases.extend(sel_cases(&proj, pres, &modes, true));
+                if !g.edges().is_empty() {
+                    // the last dependency directive is the last line of the file: directory input only at 4 files
+                    let proj = Proj { g: *g, style: Style::NoTail };
+                    cases.extend(sel_cases(&proj, &[Pre::Stale], &[Mode::Build], !thorough));
+                }
             }
         }
         "C03" => {
